@@ -5,7 +5,7 @@ from vlib import *
 
 LENS_Q = "{0,1,2,3,7,8,9,16,17,32,33,63,64,65,255,256,257}"
 LENS_T = "{0,1,2,3,4,5,7,8,9,15,16,17,31,32,33,63,64,65,127,128,129,255,256,257,300}"
-N_OBSERVERS = 80
+N_OBSERVERS = 81
 N_RELEASES = 16
 N_ZST = 24
 ALLOCFAIL = ["new", "unique_new", "new_overaligned", "new_large", "from_box_large", "new_uninit_overaligned", "from_box", "new_uninit", "new_uninit_slice", "uninit_hdr", "fhi", "thin", "vec", "slice", "str",
